@@ -122,9 +122,14 @@ class C13(Prop):
             if fin_issue is None:
                 fails.append(f"{tag}strict-silent: no issue reported for a table with defects")
             elif strict and not abort and not force_abort:
-                # message names every defect
-                for j, i in illegal:
-                    pass
+                # message names every defect: one "Illegal value ..." line per illegal cell (the first table's
+                # message holds nothing else; a later one repeats the earlier log, hence "at least")
+                n_ill = msg_text.count("Illegal value")
+                want_ill = len(illegal) + sum(1 for r, keep in shorts for j in range(keep, len(exp["kinds"]))
+                                              if exp["kinds"][j] == "onoff")
+                if n_ill < want_ill or (tag == "" and n_ill != want_ill):
+                    fails.append(f"{tag}message: the strict error names {n_ill} illegal cells, the table has {want_ill} "
+                                 f"(with {len(dups)} duplicate names, {len(shorts)} short rows)")
                 for j, name in dups:
                     if f"'{name}'" not in msg_text:
                         fails.append(f"{tag}message: duplicate column {name!r} not named in the strict error")
